@@ -198,23 +198,50 @@ package proto
 //@ -- so the recursion cannot run away in the solver)
 //@ axiom strOff_step when strOff: forall s:Ints, e:Ints, o, k, k2 :: trigger(strOff(s, e, o, k), strOff(s, e, o, k2), 0 <= k && k2 == k + 1 ==> strOff(s, e, o, k2) == strOff(s, e, o, k) + uvsize(e[o + k] - s[o + k]) + (e[o + k] - s[o + k]))
 
+//@ -- strImg(c, b, base): from position base on, b.Buf holds for every row k, at base + strOff(k), the
+//@ -- varint of the row length followed by the row bytes
+//@ spec func strImg(c Val, b Val, base Int) Bool = (forall k in 0..len(c.Pos) :: uvAt(arrayof(b.Buf), base + strOff(fieldarr(c.Pos, Start), fieldarr(c.Pos, End), offset(c.Pos), k), c.Pos[k].End - c.Pos[k].Start)) && (forall k in 0..len(c.Pos) :: forall j in 0..c.Pos[k].End - c.Pos[k].Start :: arrayof(b.Buf)[base + strOff(fieldarr(c.Pos, Start), fieldarr(c.Pos, End), offset(c.Pos), k) + uvsize(c.Pos[k].End - c.Pos[k].Start) + j] == c.Buf[c.Pos[k].Start + j])
+
 //@ -- EncodeColumn appends, row after row, the varint of the row length and the row bytes; nothing
 //@ -- else, wherever the buffer stood before (C01), and only the buffer changes (C16)
 //@ contract (c ColStr) EncodeColumn(b) props(C01,C14,C16)
 //@   requires b != nil && wfStr(c)
 //@   modifies b.Buf
-//@   let base = offset(b.Buf) + old(len(b.Buf))
 //@   ensures appendOnly(b, strOff(fieldarr(c.Pos, Start), fieldarr(c.Pos, End), offset(c.Pos), len(c.Pos))) {length}
-//@   ensures forall k in 0..len(c.Pos) :: uvAt(arrayof(b.Buf), base + strOff(fieldarr(c.Pos, Start), fieldarr(c.Pos, End), offset(c.Pos), k), c.Pos[k].End - c.Pos[k].Start) {row-length-prefixes}
-//@   ensures forall k in 0..len(c.Pos) :: forall j in 0..c.Pos[k].End - c.Pos[k].Start :: arrayof(b.Buf)[base + strOff(fieldarr(c.Pos, Start), fieldarr(c.Pos, End), offset(c.Pos), k) + uvsize(c.Pos[k].End - c.Pos[k].Start) + j] == c.Buf[c.Pos[k].Start + j] {row-bytes}
+//@   ensures strImg(c, b, offset(b.Buf) + old(len(b.Buf))) {rows-image}
 //@ loop 0 (rangeindex)
 //@   modifies b.Buf, contents(buf)
 //@   invariant -1 <= rangeindex && rangeindex < len(c.Pos) && len(buf) == 10
 //@   invariant len(b.Buf) == old(len(b.Buf)) + strOff(fieldarr(c.Pos, Start), fieldarr(c.Pos, End), offset(c.Pos), rangeindex + 1)
 //@   invariant forall k in 0..old(len(b.Buf)) :: b.Buf[k] == old(b.Buf[k])
 //@   invariant forall k in 0..rangeindex + 1 :: trigger(strOff(fieldarr(c.Pos, Start), fieldarr(c.Pos, End), offset(c.Pos), k), strOff(fieldarr(c.Pos, Start), fieldarr(c.Pos, End), offset(c.Pos), k + 1) <= strOff(fieldarr(c.Pos, Start), fieldarr(c.Pos, End), offset(c.Pos), rangeindex + 1))
-//@   invariant forall k in 0..rangeindex + 1 :: uvAt(arrayof(b.Buf), offset(b.Buf) + old(len(b.Buf)) + strOff(fieldarr(c.Pos, Start), fieldarr(c.Pos, End), offset(c.Pos), k), c.Pos[k].End - c.Pos[k].Start)
-//@   invariant forall k in 0..rangeindex + 1 :: forall j in 0..c.Pos[k].End - c.Pos[k].Start :: arrayof(b.Buf)[offset(b.Buf) + old(len(b.Buf)) + strOff(fieldarr(c.Pos, Start), fieldarr(c.Pos, End), offset(c.Pos), k) + uvsize(c.Pos[k].End - c.Pos[k].Start) + j] == c.Buf[c.Pos[k].Start + j]
+//@   invariant forall k in 0..rangeindex + 2 :: trigger(strOff(fieldarr(c.Pos, Start), fieldarr(c.Pos, End), offset(c.Pos), k), 0 <= strOff(fieldarr(c.Pos, Start), fieldarr(c.Pos, End), offset(c.Pos), k))
+//@   invariant forall k in 0..rangeindex + 1 :: trigger(strOff(fieldarr(c.Pos, Start), fieldarr(c.Pos, End), offset(c.Pos), k), uvAt(arrayof(b.Buf), offset(b.Buf) + old(len(b.Buf)) + strOff(fieldarr(c.Pos, Start), fieldarr(c.Pos, End), offset(c.Pos), k), c.Pos[k].End - c.Pos[k].Start))
+//@   invariant forall k in 0..rangeindex + 1 :: trigger(strOff(fieldarr(c.Pos, Start), fieldarr(c.Pos, End), offset(c.Pos), k), forall j in 0..c.Pos[k].End - c.Pos[k].Start :: arrayof(b.Buf)[offset(b.Buf) + old(len(b.Buf)) + strOff(fieldarr(c.Pos, Start), fieldarr(c.Pos, End), offset(c.Pos), k) + uvsize(c.Pos[k].End - c.Pos[k].Start) + j] == c.Buf[c.Pos[k].Start + j])
+
+//@ -- WriteColumn stages exactly the bytes EncodeColumn would append, in the writer's own buffer
+//@ -- (nothing is chained by reference), C14
+//@ contract (c ColStr) WriteColumn$1(b) props(C14)
+//@   requires b != nil && wfStr(c) && len(buf) == 10
+//@   modifies b.Buf, contents(buf)
+//@   ensures appendOnly(b, strOff(fieldarr(c.Pos, Start), fieldarr(c.Pos, End), offset(c.Pos), len(c.Pos))) {length}
+//@   ensures strImg(c, b, offset(b.Buf) + old(len(b.Buf))) {rows-image}
+//@ loop 0 (rangeindex)
+//@   modifies b.Buf, contents(buf)
+//@   invariant -1 <= rangeindex && rangeindex < len(c.Pos) && len(buf) == 10
+//@   invariant len(b.Buf) == old(len(b.Buf)) + strOff(fieldarr(c.Pos, Start), fieldarr(c.Pos, End), offset(c.Pos), rangeindex + 1)
+//@   invariant forall k in 0..old(len(b.Buf)) :: b.Buf[k] == old(b.Buf[k])
+//@   invariant forall k in 0..rangeindex + 1 :: trigger(strOff(fieldarr(c.Pos, Start), fieldarr(c.Pos, End), offset(c.Pos), k), strOff(fieldarr(c.Pos, Start), fieldarr(c.Pos, End), offset(c.Pos), k + 1) <= strOff(fieldarr(c.Pos, Start), fieldarr(c.Pos, End), offset(c.Pos), rangeindex + 1))
+//@   invariant forall k in 0..rangeindex + 2 :: trigger(strOff(fieldarr(c.Pos, Start), fieldarr(c.Pos, End), offset(c.Pos), k), 0 <= strOff(fieldarr(c.Pos, Start), fieldarr(c.Pos, End), offset(c.Pos), k))
+//@   invariant forall k in 0..rangeindex + 1 :: trigger(strOff(fieldarr(c.Pos, Start), fieldarr(c.Pos, End), offset(c.Pos), k), uvAt(arrayof(b.Buf), offset(b.Buf) + old(len(b.Buf)) + strOff(fieldarr(c.Pos, Start), fieldarr(c.Pos, End), offset(c.Pos), k), c.Pos[k].End - c.Pos[k].Start))
+//@   invariant forall k in 0..rangeindex + 1 :: trigger(strOff(fieldarr(c.Pos, Start), fieldarr(c.Pos, End), offset(c.Pos), k), forall j in 0..c.Pos[k].End - c.Pos[k].Start :: arrayof(b.Buf)[offset(b.Buf) + old(len(b.Buf)) + strOff(fieldarr(c.Pos, Start), fieldarr(c.Pos, End), offset(c.Pos), k) + uvsize(c.Pos[k].End - c.Pos[k].Start) + j] == c.Buf[c.Pos[k].Start + j])
+
+//@ contract (c ColStr) WriteColumn(w) props(C09,C14)
+//@   requires w != nil && wRI(w) && wfStr(c)
+//@   modifies w.buf.Buf
+//@   ensures len(w.vec) == old(len(w.vec)) && w.bufOffset == old(w.bufOffset) {nothing-chained-by-reference}
+//@   ensures appendOnly(w.buf, strOff(fieldarr(c.Pos, Start), fieldarr(c.Pos, End), offset(c.Pos), len(c.Pos))) {length}
+//@   ensures strImg(c, w.buf, offset(w.buf.Buf) + old(len(w.buf.Buf))) {same-bytes-as-EncodeColumn}
 
 //@ contract (c ColStr) Rows() (n) props(C01,C06,C16)
 //@   ensures n == len(c.Pos)
